@@ -261,10 +261,17 @@ def rule_R10_5(ctx):
                 srcs = []
                 for o in tops[1:]:
                     c2 = g.canon_op(o)
-                    if c2[0][0] == "call":
+                    # type_name(x), type_name(x).to_string(), ...: follow the
+                    # receiver chain down to the value that is named
+                    for _ in range(4):
+                        if c2[0][0] != "call":
+                            break
                         c = g.call_at(c2[0][1])
-                        if c is not None and c.args:
-                            srcs.append(g.canon_op(c.args[0]))
+                        if c is None or not c.args:
+                            break
+                        c2 = g.canon_op(c.args[0])
+                    if c2[0][0] != "call":
+                        srcs.append(c2)
                 if len(srcs) == 2 and ops.same_value(srcs[0], (("arg", 1),)) \
                         and ops.same_value(srcs[1], (("arg", 2),)):
                     ok = True
